@@ -25,7 +25,8 @@ class Prop:
                  trusted_extra=None, technique='', level_text='', level_note='', design_ref=''):
         self.pid = pid
         self.streams = streams
-        self.level = level
+        # the evidence/manifest schema only knows the bare category; 'partial' belongs in level_text
+        self.level = 'proof' if str(level).startswith('proof') else level
         self.clauses = clauses or []
         self.explored_only = explored_only or []
         self.assumptions = assumptions or []
